@@ -317,6 +317,41 @@ func TestVerifC16(t *testing.T) {
 			time.Sleep(2 * time.Millisecond) // let it reach its first send
 			cancel()
 			fmt.Fprintf(w, "%v\n", waitRet(ret))
+		case "cancelroom":
+			// cancelroom <cidr> <buf>: the context is cancelled BEFORE the call and the generator never has to wait for its
+			// consumer (buf > 0: a channel with that much room; buf = 0: a goroutine that takes every address at once)
+			// -> "<returned> <addresses handed over>"
+			_, ipnet, err := net.ParseCIDR(f[1])
+			if err != nil {
+				fmt.Fprintf(w, "error %v\n", err)
+				continue
+			}
+			buf, _ := strconv.Atoi(f[2])
+			ctx, cancel := context.WithCancel(context.Background())
+			cancel()
+			ch := make(chan uint32, buf)
+			var taken int64
+			stop := make(chan struct{})
+			if buf == 0 {
+				go func() {
+					for {
+						select {
+						case <-ch:
+							atomic.AddInt64(&taken, 1)
+						case <-stop:
+							return
+						}
+					}
+				}()
+			}
+			ret := make(chan struct{})
+			go func() {
+				ipGenerator(ctx, ipnet, ch)
+				close(ret)
+			}()
+			ok := waitRet(ret)
+			close(stop)
+			fmt.Fprintf(w, "%v %d\n", ok, int64(len(ch))+atomic.LoadInt64(&taken))
 		case "slow":
 			_, ipnet, err := net.ParseCIDR(f[1])
 			if err != nil {
